@@ -503,10 +503,13 @@ class World(object):
         self.steps.append(st)
         return st
 
+    light = False   # when True, ops take no snapshots (bulk set-up traffic)
+
     def connect(self, cid, op=None):
         st = self.begin(op or {"op": "connect", "c": cid})
-        st.before = self.snapshot()
-        st.ubefore = self.usnapshot()
+        if not self.light:
+            st.before = self.snapshot()
+            st.ubefore = self.usnapshot()
         p = self.wsfactory.buildProtocol(None)
         c = Conn(cid, p)
         self.conns[cid] = c
@@ -516,14 +519,15 @@ class World(object):
         return st
 
     def _finish(self, st):
-        if not self.crashed:
+        if not self.crashed and not self.light:
             st.after = self.snapshot()
             st.uafter = self.usnapshot()
 
     def send(self, cid, msg, rnd=(0, 0), op=None):
         st = self.begin(op or {"op": "send", "c": cid, "msg": msg})
-        st.before = self.snapshot()
-        st.ubefore = self.usnapshot()
+        if not self.light:
+            st.before = self.snapshot()
+            st.ubefore = self.usnapshot()
         c = self.conns[cid]
         self.rnd = tuple(rnd)
         self.rnd_tries = 0
@@ -534,8 +538,9 @@ class World(object):
 
     def drop(self, cid, op=None):
         st = self.begin(op or {"op": "drop", "c": cid})
-        st.before = self.snapshot()
-        st.ubefore = self.usnapshot()
+        if not self.light:
+            st.before = self.snapshot()
+            st.ubefore = self.usnapshot()
         c = self.conns[cid]
         if c.alive:
             c.alive = False
